@@ -566,3 +566,54 @@ Definition engine_flist (total nlive growc : nat) : flist :=
 Definition engine_state (bt bl bg vt vl vg : nat) : state :=
   {| hp := {| boxes := engine_flist bt bl bg; vecs := engine_flist vt vl vg; stale := [] |};
      rt := set_root no_roots RsHost 0 (VNode KListV (map (fun i => VBox (N.of_nat i)) (seq 0 bl) ++ map (fun i => VVec (N.of_nat i)) (seq 0 vl))) |}.
+
+(* ---------------------------------------------------------------- the marker's bounded work queue *)
+(* MarkAndSweepContextRefQueue: a worker pushes on its local queue (a Vec with a fixed capacity) and,
+   when that is full (len == capacity), on the shared queue; it pops the local queue first and the
+   shared queue when the local one is empty; ParallelMarker::mark puts the roots on the shared queue.
+   The booleans say what the code does on each path (generated: pq_* in Gen_C04.v). *)
+Record pq_cfg : Set := { pq_cap : nat; pq_spill : bool; pq_local : bool; pq_drain : bool; pq_roots : bool }.
+
+Definition gen_pq : pq_cfg :=
+  {| pq_cap := pq_local_capacity; pq_spill := pq_spill_enqueues; pq_local := pq_local_enqueues;
+     pq_drain := pq_drain_both; pq_roots := pq_roots_enqueued |}.
+
+Definition pq_push (q : pq_cfg) (ls : list href * list href) (x : href) : list href * list href :=
+  if Nat.leb (pq_cap q) (length (fst ls))
+  then (if pq_spill q then (fst ls, x :: snd ls) else ls)
+  else (if pq_local q then (x :: fst ls, snd ls) else ls).
+
+Definition pq_push_all (q : pq_cfg) (xs : list href) (ls : list href * list href) : list href * list href :=
+  fold_left (pq_push q) xs ls.
+
+Definition pq_pop (q : pq_cfg) (ls : list href * list href) : option (href * (list href * list href)) :=
+  match ls with
+  | (x :: l, s) => Some (x, (l, s))
+  | ([], x :: s) => if pq_drain q then Some (x, ([], s)) else None
+  | ([], []) => None
+  end.
+
+Fixpoint mark_pq (trav : kind -> bool) (q : pq_cfg) (fuel : nat) (h : heap) (ls : list href * list href)
+  (nb nv : nat) : res (heap * nat * nat) :=
+  match fuel with
+  | 0 => OutOfFuel
+  | S fuel' =>
+    match pq_pop q ls with
+    | None => Ok (h, nb, nv)
+    | Some (x, ls') =>
+      match lookup h x with
+      | None => Panic "mark: handle to a dropped slot"
+      | Some s =>
+        if live s then mark_pq trav q fuel' h ls' nb nv
+        else mark_pq trav q fuel' (set_live h x) (pq_push_all q (hdls trav (sval s)) ls')
+                     (match x with HB _ => S nb | HV _ => nb end)
+                     (match x with HB _ => nv | HV _ => S nv end)
+      end
+    end
+  end.
+
+(* Heap::mark with that marker (after the reset of a full collection) *)
+Definition mark_bounded (trav : kind -> bool) (q : pq_cfg) (h : heap) (r : roots) : res (heap * nat * nat) :=
+  let h0 := {| boxes := boxes h; vecs := vecs h; stale := [] |} in
+  let wl := hdls trav (marked_roots r) in
+  mark_pq trav q (mark_fuel trav h0 wl) h0 ([], if pq_roots q then wl else []) 0 0.
